@@ -16,7 +16,7 @@ import contextlib
 import z3
 
 from engine import symex, codec, c02env, c11env
-from engine.c11env import (SLoop, World, SymMap, ref_frame, frame_code, bytes_equal, bv, le_terms, zb, z_and, z_or, z_not,
+from engine.c11env import (SLoop, World, SymMap, ref_frame, frame_code, bytes_equal, bv, zb, z_and, z_or, z_not,
                            z_ite, z_iff, w_eq, w_nonzero, ref_select, terms, ref_plain, ref_obfuscate)
 
 import aioslsk.network.connection as C
@@ -437,6 +437,10 @@ def _connect(c, loop, g, wr, tap, mode, direct, indirect, addr, typ, decoy, canc
             if exc is not None:
                 c.check(isinstance(exc, PeerConnectionError), 'failure_is_peer_connection_error', sig=sig, info=info)
                 c.reach('request_raised')
+                # ("our ticket" is read from the ConnectToPeer bytes, so the reference cannot speak about an indirect attempt
+                # that was never made: giving up without having asked the server is a failure of its own)
+                c.check(any(frame_code(d) == 18 for d in world.server_writer.written), 'failed_request_has_tried_the_indirect_path',
+                        sig=sig, info=info)
         else:
             c.check(exc is None or isinstance(exc, asyncio.CancelledError), 'cancelled_request_ends_cancelled', sig=csig, info=info)
         if returned is not None:
@@ -542,7 +546,6 @@ def _connect(c, loop, g, wr, tap, mode, direct, indirect, addr, typ, decoy, canc
     if not c.check(task.done(), 'request_terminates', sig=csig,
                    info={'direct_phase_indirect_phase': phase(), 'waiters': waiters(), 't': loop.time()}):
         return
-    returned = st['result'][0] if st['result'] else None
     if st.get('clean_at_return'):
         # (when something was left behind at the return, what it turns into later is a consequence, not a new finding)
         c.check(st.get('late') is None, 'late_arrival_leaves_nothing', sig=csig, info=st.get('late'))
